@@ -625,6 +625,8 @@ impl TypeChecker {
                             if type_lhs.is_closed() && type_rhs.is_closed() {
                                 let lhs_dtype = dtype(&lhs_checked)?;
                                 let rhs_dtype = dtype(&rhs_checked)?;
+                                self.enforce_dtype(&type_lhs, lhs_checked.full_span())?;
+                                self.enforce_dtype(&type_rhs, rhs_checked.full_span())?;
 
                                 let result_dtype = match op {
                                     typed_ast::BinaryOperator::Mul => {
@@ -800,7 +802,11 @@ impl TypeChecker {
                         typed_ast::BinaryOperator::Equal | typed_ast::BinaryOperator::NotEqual => {
                             if lhs_type.is_closed() && rhs_type.is_closed() {
                                 if lhs_type.is_dtype() && rhs_type.is_dtype() {
-                                    let _ = get_type_and_assert_equal_dtypes()?;
+                                    // equal closed types can be compared as they are (they may be
+                                    // type parameters without a `Dim` bound)
+                                    if lhs_type != rhs_type {
+                                        let _ = get_type_and_assert_equal_dtypes()?;
+                                    }
                                 } else if lhs_type != rhs_type
                                     || lhs_type.is_fn_type()
                                     || rhs_type.is_fn_type()
